@@ -261,6 +261,25 @@ def bxor(*vs):
     return norm(out)
 
 
+def opaque(v):
+    """wrap a value into one sharing node (hash-consed by content): keeps XOR sums from growing without bound along deep
+    pipelines; two computations that build the same value get the same node, so syntactic comparison still works"""
+    if is_const(v):
+        return v
+    nid = single_node(v)
+    if nid is not None:
+        return v
+    return full(node('def', width(v), v))
+
+
+def maxleaves(v):
+    m = 0
+    for l, c, n in v:
+        if len(l) > m:
+            m = len(l)
+    return m
+
+
 def bnot(a):
     return bxor(a, const(-1, width(a)))
 
@@ -269,7 +288,61 @@ def bit(v, i):
     return extract(v, i, 1)
 
 
+ANF = [False]     # algebraic normal form mode: AND distributes over XOR, products are monomial nodes over atomic bits
+
+
+def _monomials(x):
+    """1-bit value -> set of monomials (frozensets of atom leaves); the empty monomial is the constant 1"""
+    l, c, n = x[0]
+    ms = set()
+    if c:
+        ms.add(frozenset())
+    for nid, lo in l:
+        op, w, args = nodes[nid]
+        if op == 'and1':
+            m = frozenset(a[0][0][0] for a in args)
+        else:
+            m = frozenset([(nid, lo)])
+        if m in ms:
+            ms.discard(m)
+        else:
+            ms.add(m)
+    return ms
+
+
+def _from_monomials(ms):
+    leaves = []
+    c = 0
+    for m in ms:
+        if not m:
+            c ^= 1
+        elif len(m) == 1:
+            leaves.append(next(iter(m)))
+        else:
+            args = tuple(sorted((((a,), 0, 1),) for a in m))
+            leaves.append((node('and1', 1, args), 0))
+    return ((tuple(sorted(leaves)), c, 1),)
+
+
+def and1_anf(a, b):
+    if is_const(a):
+        return b if cval(a) else const(0, 1)
+    if is_const(b):
+        return a if cval(b) else const(0, 1)
+    res = set()
+    for x in _monomials(a):
+        for y in _monomials(b):
+            m = x | y
+            if m in res:
+                res.discard(m)
+            else:
+                res.add(m)
+    return _from_monomials(res)
+
+
 def and1(a, b):
+    if ANF[0]:
+        return and1_anf(a, b)
     args = set()
     for x in (a, b):
         if is_const(x):
@@ -762,6 +835,8 @@ class Evaluator:
                 if not self._v(a):
                     return 0
             return 1
+        if op == 'def':
+            return self._v(args)
         if op == 'eqz':
             return int(self._v(args) == 0)
         if op == 'ult':
@@ -812,7 +887,7 @@ def _node_deps(j):
         vs = [t for t, k in args[0]]
     elif op == 'and1':
         vs = args
-    elif op == 'eqz':
+    elif op == 'eqz' or op == 'def':
         vs = (args,)
     elif op == 'uf':
         vs = args[1:]
@@ -895,6 +970,8 @@ def _z3build(i):
         if args[1]:
             r = r + z3.BitVecVal(args[1], w)
         return r
+    if op == 'def':
+        return z3val(args)
     if op == 'eqz':
         x = z3val(args)
         return z3.If(x == 0, z3.BitVecVal(1, 1), z3.BitVecVal(0, 1))
